@@ -33,7 +33,7 @@ def families(tier):
     for cls in ('str', 'ustr'):
         f = Family('step_' + cls, 'c01_str.c', units=[cls + '.c', 'obj.c', 'strings.c', 'debug.c'] + (['str.c'] if cls == 'ustr' else []),
                    stubs=['msgs_stub.c', 'libc_models.c'], defines=(['USTR'] if cls == 'ustr' else []), unwind=L + 6,
-                   cap=(120, 8) if q else (400, 14))
+                   cap=(120, 3) if q else (400, 12))
         P = 'C01/%s/' % cls
         for s in states(L, slacks):
             for o in others:
@@ -75,7 +75,7 @@ def families(tier):
         # stream/descriptor constructors with the read chunk scaled to 4 bytes
         g = Family('stream_' + cls, 'c01_str.c', units=f.units, stubs=['msgs_stub.c', 'libc_models.c', 'env_io.c'],
                    defines=f.defines + ['VERIF_STREAMS', 'LIBAST_VERIF_BUFF_INC=4'], unwind=18,
-                   cap=(120, 8) if q else (400, 14), note='BUFF_INC scaled to 4 (hook); payload crosses up to three chunk boundaries')
+                   cap=(120, 3) if q else (400, 12), note='BUFF_INC scaled to 4 (hook); payload crosses up to three chunk boundaries')
         kinds = (0, 1, 3, -1)
         plens = (0, 1, 3, 4, 5, 8, 9) if q else tuple(range(0, 14))
         for pl in plens:
@@ -88,7 +88,7 @@ def families(tier):
                 g.add(P + 'new_from_fp/plen=%d,nl=%d' % (pl, nl), 'h_from_fp', pl, nl)
         fams.append(g)
         h = Family('format_' + cls, 'c01_str.c', units=f.units, stubs=['msgs_stub.c', 'libc_models.c', 'fmt_stub.c'],
-                   defines=f.defines + ['VERIF_FORMAT'], unwind=26, cap=(120, 8) if q else (400, 14),
+                   defines=f.defines + ['VERIF_FORMAT'], unwind=26, cap=(120, 3) if q else (400, 12),
                    note='snprintf/vsnprintf replaced by an exact mini-printf (stubs/fmt_stub.c)')
         for d in (1, 2, 3, 5):
             h.add(P + 'new_from_num/digits<=%d' % d, 'h_from_num', d)
